@@ -35,6 +35,12 @@ class _Raise(Exception):
     pass
 
 
+class _KeyTruth(_Raise):
+    '''the code asks for the truth value of an ELEMENT: elements are arbitrary hashable values (0, '', None ...), so the outcome is
+    not the same for every element; callers see it as an abnormal outcome'''
+    pass
+
+
 class Node(object):
     '''a list object of the heap'''
     def __init__(self, name, slots):
@@ -264,17 +270,21 @@ class Exec(object):
         if isinstance(e, ast.BoolOp):
             vals = (self.truth(v, env) for v in e.values)
             return all(vals) if isinstance(e.op, ast.And) else any(vals)
-        v = self.expr(e, env)
+        return self.truth_of(self.expr(e, env), e)
+
+    def truth_of(self, v, e):
         if v == 'SELF':
             return len(self.heap.map) > 0
         if isinstance(v, Node):
             return True
         if isinstance(v, dict):
             return len(v) > 0
-        if isinstance(v, (bool, int, list, tuple)) or v is None:
+        if isinstance(v, (bool, int, list, tuple)):
             return bool(v)
-        if isinstance(v, str):
-            return True          # keys stand for arbitrary (truthy) model instances
+        if isinstance(v, str) or v is None:
+            if v == 'KeyError':
+                return True
+            raise _KeyTruth('`%s` (element %s)' % (src(e)[:60], v))      # keys stand for arbitrary values, false ones included
         raise _Unknown('truth of `%s`' % src(e))
 
     def expr(self, e, env):
@@ -333,6 +343,17 @@ class Exec(object):
             return self.expr(e.body if self.truth(e.test, env) else e.orelse, env)
         if isinstance(e, ast.UnaryOp) and isinstance(e.op, ast.Not):
             return not self.truth(e.operand, env)
+        if isinstance(e, ast.BoolOp):
+            # a and b / a or b as VALUES: the first operand that decides the outcome
+            v = None
+            for k, x in enumerate(e.values):
+                v = self.expr(x, env)
+                if k == len(e.values) - 1:
+                    break
+                t = self.truth_of(v, x)
+                if t != isinstance(e.op, ast.And):
+                    break
+            return v
         if isinstance(e, ast.Call):
             f = e.func
             args = [self.expr(a, env) for a in e.args]
